@@ -30,8 +30,8 @@ import (
 // The implementation answer is the OBSERVED trace (attempts, waits, opens, frame counts, close causes); the Lean model
 // (Mav/Model/Provider.lean) computes the trace from the script, and the spec states it declaratively.
 
-const lifePeriod = 200 * time.Millisecond // reconnectPeriod for every lifecheck scenario (set through the hook)
-const lifeIdle = 300 * time.Millisecond   // IdleTimeout
+const lifePeriod = 300 * time.Millisecond // reconnectPeriod for every lifecheck scenario (set through the hook)
+const lifeIdle = 450 * time.Millisecond   // IdleTimeout
 
 func causeString(err error) string {
 	if err == nil {
